@@ -671,6 +671,37 @@ func (r *Runner) execSketch(cmd string, a []string) string {
 				got = e.sk()
 			}
 			r.decodeOracle(bs, m, isX, kind, n, skSnapshot{empty: true}, got, derr)
+			// the same bytes cut from a larger buffer (spare capacity holding stale bytes) decode alike
+			for _, stale := range []byte{0x00, 0x81} {
+				rb := roomy(bs, stale)
+				var e2 error
+				var c2 float64
+				ok2, msg2 := guard(func() {
+					if isX {
+						var x2 *ddsketch.DDSketchWithExactSummaryStatistics
+						x2, e2 = ddsketch.DecodeDDSketchWithExactSummaryStatistics(rb, providerOf(kind, n), m)
+						if e2 == nil {
+							c2 = x2.GetCount()
+						}
+					} else {
+						var s2 *ddsketch.DDSketch
+						s2, e2 = ddsketch.DecodeDDSketch(rb, providerOf(kind, n), m)
+						if e2 == nil {
+							c2 = s2.GetCount()
+						}
+					}
+				})
+				if !ok2 {
+					r.oracleFail("decode-reads-beyond-input", "decoding the same bytes from a buffer with spare capacity panicked: "+msg2)
+				} else if (e2 == nil) != (derr == nil) || (derr == nil && c2 != func() float64 {
+					if isX {
+						return e.exact.GetCount()
+					}
+					return e.plain.GetCount()
+				}()) {
+					r.oracleFail("decode-reads-beyond-input", fmt.Sprintf("decoding depends on bytes beyond the input: err %v vs %v", derr, e2))
+				}
+			}
 		}
 		if derr != nil {
 			e.poisoned = true
